@@ -97,7 +97,7 @@ pub fn gen_graph<'t>(r: &mut Rng, info: &TreeInfo<'t>) -> Graph<'t> {
 }
 
 /// canonical encoding of a JSON value (object keys sorted; syntax-node ids mapped to pre-order indices)
-fn json_sexp(j: &J, info: &TreeInfo) -> Sexp {
+pub fn json_sexp(j: &J, info: &TreeInfo) -> Sexp {
     match j {
         J::Null => sexp::atom("jnull"),
         J::Bool(b) => sexp::tagged("jbool", vec![sexp::boolean(*b)]),
@@ -187,7 +187,25 @@ fn decode_graph(j: &J, info: &TreeInfo) -> Option<Sexp> {
 /// one graph: model comparisons + direct oracle. Shared with checks that produce graphs by execution.
 pub fn check_graph(rep: &mut Report, drv: &mut Driver, g: &Graph, info: &TreeInfo, src: &str, origin: &str) {
     let gs = graph_sexp(g, Some(info));
-    let jv = serde_json::to_value(g).expect("serialize");
+    // every way of producing text may panic or fail inside the serialiser: guarded, so that the graph is reported
+    let guarded = std::panic::catch_unwind(std::panic::AssertUnwindSafe(|| {
+        (serde_json::to_value(g).ok(), serde_json::to_string_pretty(g).ok(), serde_json::to_string(g).ok())
+    }));
+    let (jv, text, compact) = match guarded {
+        Ok((Some(a), Some(b), Some(c))) => (a, b, c),
+        Ok(_) => {
+            rep.fail("direct", "C14 serialising a graph fails", true, json!({"origin": origin, "source": src, "graph": gs.pretty()}));
+            return;
+        }
+        Err(_) => {
+            rep.fail("impl-panic", "C14 serialising a graph panics", true, json!({"origin": origin, "source": src, "graph": gs.pretty()}));
+            return;
+        }
+    };
+    match serde_json::from_str::<J>(&compact) {
+        Ok(back) if back == jv => {}
+        _ => rep.fail("direct", "C14 compact JSON text does not parse back to the serialised value", true, json!({"origin": origin, "source": src, "graph": gs.pretty(), "text": compact})),
+    }
     let expected_json = json_sexp(&jv, info);
     let model_json = drv.ask(&sexp::tagged("json", vec![gs.clone()]));
     if expected_json != model_json {
@@ -195,7 +213,6 @@ pub fn check_graph(rep: &mut Report, drv: &mut Driver, g: &Graph, info: &TreeInf
             json!({"origin": origin, "source": src, "graph": gs.pretty(), "implementation": expected_json.pretty(), "model": model_json.pretty()}));
     }
     // text round trip: what a consumer of the CLI's output sees
-    let text = serde_json::to_string_pretty(g).expect("serialize text");
     match serde_json::from_str::<J>(&text) {
         Ok(back) if back == jv => {}
         _ => rep.fail("direct", "C14 JSON text does not parse back to the serialised value", true, json!({"origin": origin, "source": src, "graph": gs.pretty(), "text": text})),
@@ -205,7 +222,8 @@ pub fn check_graph(rep: &mut Report, drv: &mut Driver, g: &Graph, info: &TreeInf
     {
         let path = std::path::PathBuf::from(format!("/tmp/tsg-verif-c14-{}.json", std::process::id()));
         let stale = format!("{{\"stale\": \"{}\"}}\n", "y".repeat(text.len() + 64));
-        let ok = std::fs::write(&path, &stale).is_ok() && g.display_json(Some(&path)).is_ok();
+        let ok = std::fs::write(&path, &stale).is_ok()
+            && std::panic::catch_unwind(std::panic::AssertUnwindSafe(|| g.display_json(Some(&path)).is_ok())).unwrap_or(false);
         let written = std::fs::read_to_string(&path).unwrap_or_default();
         let _ = std::fs::remove_file(&path);
         match (ok, serde_json::from_str::<J>(&written)) {
@@ -238,7 +256,7 @@ pub fn run(rep: &mut Report, tier: &str, seed: u64) {
     let root = Rng::new(seed);
     for ti in 0..n_trees {
         let mut r = root.fork(ti as u64);
-        let src = python::gen_source(&mut r);
+        let src = if ti % 3 == 2 { python::ALIASED[(ti / 3) % python::ALIASED.len()].to_string() } else { python::gen_source(&mut r) };
         let tree = parse_python(&src);
         let info = TreeInfo::new(&tree);
         drv.ask(&sexp::tagged("set-tree", vec![info.to_sexp(&src)]));
